@@ -706,6 +706,11 @@ def cases(tier, seed):
                     add("enlg.qlb_le_ns", dict(par), "enlg.qlb/%s/%s" % (rb, fld), nt)
                     if R == B:
                         add("enlg.npa_ge_qlb", dict(par, k=1), "enlg.npa/%s/%s" % (ans, fld), nt)
+                        if R * A * B <= 8 and X * Y <= 4:
+                            # levels with same-party products: the achieved value must stay below them too (word reduction, adjoints)
+                            add("enlg.npa_ge_qlb", dict(par, k="1+ab", iters=4), "enlg.npa-1+ab/%s/%s" % (ans, fld), nt)
+                            if (thorough or cplx) and X * Y <= 2:
+                                add("enlg.npa_ge_qlb", dict(par, k=2, iters=4), "enlg.npa-2/%s/%s" % (ans, fld), nt)
 
     # ------------------------------------------------------------------ hedging
     hedge_bounds = ["hedge.%s.%s" % (w, d) for w in _HEDGE_METHODS for d in ("ge", "le")]
